@@ -304,6 +304,46 @@ func runC10(c *core.Ctx) {
 			}
 		}
 	})
+	// extended reports whose blocks continue each other for one source (same SSRC, same thinning,
+	// the next block beginning where the previous one ends): every block has its entry
+	c.Section("xr-continuations", c.N(3000, 200000), func(cs *core.Case) {
+		r := cs.R
+		x := &rtcp.ExtendedReport{SenderSSRC: r.B32()}
+		ssrc, t, seq := r.B32(), uint8(r.Intn(16)), r.B16()
+		for i := 2 + r.Intn(4); i > 0; i-- {
+			if r.Chance(1, 6) {
+				ssrc = r.B32()
+			}
+			if r.Chance(1, 8) {
+				t = uint8(r.Intn(16))
+			}
+			n := uint16(1 + r.Intn(40))
+			begin := seq
+			if r.Chance(1, 8) {
+				begin += uint16(r.Pick(1, 65535))
+			}
+			end := begin + n
+			switch r.Intn(4) {
+			case 0, 1:
+				x.Reports = append(x.Reports, &rtcp.LossRLEReportBlock{T: t, SSRC: ssrc, BeginSeq: begin, EndSeq: end, Chunks: []rtcp.Chunk{rtcp.Chunk(0x4000 | n), 0}})
+			case 2:
+				x.Reports = append(x.Reports, &rtcp.DuplicateRLEReportBlock{T: t, SSRC: ssrc, BeginSeq: begin, EndSeq: end, Chunks: []rtcp.Chunk{rtcp.Chunk(n), 0}})
+			default:
+				x.Reports = append(x.Reports, &rtcp.PacketReceiptTimesReportBlock{T: t, SSRC: ssrc, BeginSeq: begin, EndSeq: end, ReceiptTime: make([]uint32, n)})
+			}
+			seq = end
+		}
+		want := refDest(x)
+		cs.Distinct(valueDigest("xc", x))
+		cs.Count("xr-continuations")
+		det := func() core.W { return core.W{"type": "ExtendedReport", "value": vdump(x)} }
+		c10Call(cs, x, want, "memory/ExtendedReport", det)
+		if b, err, pan := gMarshal(x); err == nil && pan == "" {
+			if own, oerr, opan := gUnmarshalOwn(gen.XR, cloneBytes(b)); oerr == nil && opan == "" {
+				c10Call(cs, own, want, "round-trip/own/ExtendedReport", det)
+			}
+		}
+	})
 	// list-length boundaries per type, systematically
 	c.Section("boundaries", c.N(6000, 120000), func(cs *core.Case) {
 		r := cs.R
